@@ -747,6 +747,8 @@ class BufferAsyncCalls(Generic[T]):
             try:
                 await _load_inputs(await self._getting)
             except (aio.TimeoutError, aio.CancelledError):
+                if _current_task_cancelling():
+                    raise  # This task itself is being cancelled
                 await self._run_func(inputs)
             else:
                 self.q.task_done()
@@ -764,6 +766,8 @@ class BufferAsyncCalls(Generic[T]):
             if inputs:  # Could be empty if all empty iterators
                 await self.func(inputs)
         except BaseException as e:  # noqa
+            if isinstance(e, aio.CancelledError) and _current_task_cancelling():
+                raise  # This task itself is being cancelled
             logging.exception("Failed to run %s, retrying", self.func)
         else:
             self.event.set()
